@@ -13,11 +13,11 @@ Fixpoint mismatches_from {A : Type} (f : A -> bool) (i : nat) (l : list A) : lis
 Definition mismatches {A : Type} (f : A -> bool) (l : list A) : list nat :=
   mismatches_from f 0 l.
 
-Fixpoint list_eqb {A : Type} (eqb : A -> A -> bool) (a b : list A) : bool :=
-  match a, b with
-  | [], [] => true
-  | x :: a', y :: b' => eqb x y && list_eqb eqb a' b'
-  | _, _ => false
+Definition list_eqb {A : Type} (eqb : A -> A -> bool) : list A -> list A -> bool :=
+  fix go (a b : list A) {struct a} : bool :=
+  match a with
+  | [] => match b with [] => true | _ => false end
+  | x :: a' => match b with [] => false | y :: b' => eqb x y && go a' b' end
   end.
 
 Definition option_eqb {A : Type} (eqb : A -> A -> bool) (a b : option A) : bool :=
